@@ -1,2 +1,3 @@
+@property
 def spec(self):
     return tuple((v for v in self.updates_.keys()))
